@@ -31,6 +31,9 @@ STRUCTS = [
     # an over-determined databook that is inconsistent by a hair (3e-4 on values of 40 .. 100): no assignment meets every quantity to 1e-6
     dict(id="overtiny", rows=[("ab", [1, 2], None, True, "dom=100"), ("ca", [1], None, True, "dom=60"), ("cb", [2], None, True, "dom=40,400003/10000,399997/10000"),
                               ("cc", [3], None, True, "dom=0,5"), ("cd", [4], None, True, "dom=0")]),
+    # three compartments outside the databook absorb a total that is 2.7e-6 too small: each would have to be slightly negative; clipping them to zero
+    # leaves the total off by more than the stated tolerance
+    dict(id="negclip", rows=[("alive", [1, 2, 3, 4], None, True, "dom=1"), ("cd", [4], None, True, "dom=1,10000027/10000000,1000003/1000000")]),
     dict(id="fracunused", rows=[("everybody", [1, 2, 3, 4], None, False), ("share", [1], "everybody", True), ("cb", [2], None, True), ("cc", [3], None, True), ("cd", [4], None, True)]),
 ]
 
